@@ -2,6 +2,8 @@ package sym
 
 import (
 	"fmt"
+	"os"
+	"time"
 	"go/constant"
 	"go/token"
 	"go/types"
@@ -65,6 +67,7 @@ type State struct {
 	Steps    int
 	Result   Value
 	Lenient  bool // package initialisation mode
+	Unchecked int // lazily added path-condition conjuncts since the last feasibility check
 	Barrier  int  // no merging until Steps exceeds this (set by concretisation forks)
 	Notes    []string
 }
@@ -127,6 +130,7 @@ type Exec struct {
 	AllowPanic  bool
 	NoMerge     bool
 	NoLazy      bool
+	LazyAll     bool
 	LazyForks   int
 	Trace       bool
 	ReplaceByGo map[string]string // callee full name -> harness-package function
@@ -201,7 +205,7 @@ func (s *State) top() *Frame { return s.Stack[len(s.Stack)-1] }
 
 func (ex *Exec) clone(s *State) *State {
 	n := &State{Heap: make(map[int]*Object, len(s.Heap)), PC: append([]*Term{}, s.PC...), Status: s.Status,
-		Msg: s.Msg, SymCount: map[string]int{}, Syms: append([]SymRec{}, s.Syms...), Steps: s.Steps, Lenient: s.Lenient, Barrier: s.Barrier}
+		Msg: s.Msg, SymCount: map[string]int{}, Syms: append([]SymRec{}, s.Syms...), Steps: s.Steps, Lenient: s.Lenient, Barrier: s.Barrier, Unchecked: s.Unchecked}
 	ex.nextState++
 	n.ID = ex.nextState
 	for k, v := range s.Heap {
@@ -676,7 +680,11 @@ func (ex *Exec) checkSat(s *State, extra ...*Term) Result {
 			return Unsat
 		}
 	}
+	t0 := time.Now()
 	r, _ := ex.Solver.Check(as, nil)
+	if d := time.Since(t0); d > 300*time.Millisecond && os.Getenv("SYMGO_DEBUG") != "" {
+		fmt.Fprintf(os.Stderr, "slow query %v (%s) at %s pc=%d\n", d, r, ex.posOf(s), len(s.PC))
+	}
 	return r
 }
 
@@ -848,6 +856,14 @@ func (ex *Exec) doPanic(s *State, msg string) {
 
 func (ex *Exec) jump(s *State, fr *Frame, to *ssa.BasicBlock) error {
 	fr.Visits[to.Index]++
+	if s.Unchecked > 0 && fr.Visits[to.Index]%128 == 0 {
+		// a lazily explored path that keeps looping: make sure it is feasible
+		if ex.checkSat(s) == Unsat {
+			s.Status = Infeasible
+			return nil
+		}
+		s.Unchecked = 0
+	}
 	if fr.Visits[to.Index] > ex.MaxVisits {
 		return &execError{"UNWIND loop bound exceeded in " + fr.Fn.String()}
 	}
@@ -956,12 +972,14 @@ func (ex *Exec) exec(s *State, fr *Frame, in ssa.Instruction) ([]*State, *stopPo
 		cond := cv.(*Term)
 		blk := fr.Block
 		var ts, fs *State
-		if !cond.IsConst() && !ex.NoLazy && !s.Lenient && ex.lazyDiamond(blk) {
+		if !cond.IsConst() && !ex.NoLazy && !s.Lenient && (ex.LazyAll || ex.lazyDiamond(blk)) {
 			ex.LazyForks++
 			fs = ex.clone(s)
 			ts = s
 			ts.PC = append(ts.PC, cond)
 			fs.PC = append(fs.PC, ex.Ctx.BNot(cond))
+			ts.Unchecked++
+			fs.Unchecked++
 		} else {
 			ts, fs = ex.branch(s, cond)
 		}
